@@ -130,9 +130,9 @@ def gen_filtered(r: random.Random, scope: list[str], allow_tern: bool = True) ->
                 a = gen_primitive(r, scope)
             args.append(a)
         e = ("filter", e, name, args)
-    if r.random() < 0.08:
-        # a lambda-aware filter with a one-parameter arrow function; the parameter
-        # often shadows a variable of the template
+    if r.random() < 0.1:
+        # a lambda-aware filter with an arrow function x => e or (x, i) => e; the
+        # parameters often shadow variables of the template
         param = r.choice(["i", "x", "a", "it"])
         lf = r.choice(["map", "where", "reject", "find", "find_index", "has"])
         seq = r.choice([("path", "xs", []), ("path", "xs", []), ("path", "s", []), ("range", ("lit", 1), ("lit", 3)),
@@ -143,7 +143,13 @@ def gen_filtered(r: random.Random, scope: list[str], allow_tern: bool = True) ->
             body = r.choice([("cmp", r.choice(["==", "!=", ">", "<"]), ("path", param, []), r.choice([("lit", 1), ("lit", 2), ("lit", "a"), ("path", "n", [])])),
                              ("path", param, []), ("path", param, [("key", r.choice(KEYS))]),
                              ("and", ("path", param, []), ("cmp", "!=", ("path", param, []), ("lit", 2)))])
-        e = ("lfilter", seq, lf, param, body)
+        iparam = None
+        if r.random() < 0.4:
+            iparam = r.choice(["j", "n", "w", "i", "x"])
+            if r.random() < 0.6:
+                ib = ("cmp", r.choice(["==", ">", "<", "!="]), ("path", iparam, []), ("lit", r.choice([0, 1, 2])))
+                body = ib if (lf != "map" and r.random() < 0.5) else (("and", body, ib) if lf != "map" else ("path", iparam, []))
+        e = ("lfilter", seq, lf, param, body, iparam)
         if r.random() < 0.5:
             e = ("filter", e, r.choice(["join", "size", "first", "default"]), [])
         return e
@@ -217,6 +223,10 @@ class Gen:
         for _ in range(n):
             nd = self.node(scope, depth, in_loop)
             out.append(nd)
+            if r.random() < 0.12:
+                # a comment between markup and text: its markers decide how the text is trimmed
+                out.append(("comment", r.choice([0, 1, 2])))
+                out.append(("content", r.choice([" a", "\n b ", " ", "  c\n"])))
             if nd[0] == "for" and r.random() < 0.5:
                 # names bound inside the loop must be gone (or back to their outer value) afterwards
                 out.append(("output", ("path", nd[1], [])))
@@ -224,14 +234,74 @@ class Gen:
                 out.append(("output", ("path", r.choice(["w", "v", "a", "it"]), [])))
         return out
 
+    def blank_nest(self, scope: list[str], depth: int, in_loop: bool) -> tuple:
+        """A block whose only non-whitespace child is a multi-branch construct in
+        which some branches print and the others are blank: the static blank flag
+        of the inner construct must account for every branch."""
+        r = self.r
+
+        def branch() -> list[tuple]:
+            k = r.random()
+            if k < 0.45:
+                return r.choice([[], [("content", " ")], [("content", "\n ")], [("assign", "t", ("lit", 1))],
+                                 [("content", " "), ("comment", r.choice([0, 1, 2]))], [("capture", "c", [("content", "z")])]])
+            if k < 0.8:
+                return [("content", r.choice(["x", " y ", "Z\n"]))]
+            return [("output", gen_primitive(r, scope))]
+
+        def cond() -> tuple:
+            return r.choice([("lit", True), ("lit", False), ("path", "flag", []), ("path", "xs", []),
+                             ("cmp", "==", ("path", "n", []), ("lit", 1)), ("path", "nope", [])])
+
+        def inner(d: int) -> tuple:
+            k = r.random()
+            if d > 0 and k < 0.2:
+                return wrap(inner(d - 1))
+            if k < 0.5:
+                it = r.choice([("range", ("lit", 1), ("lit", 0)), ("range", ("lit", 1), ("lit", 2)), ("path", "xs", []),
+                               ("path", "nope", []), ("path", "d", [])])
+                return ("for", r.choice(["i", "x"]), it, None, None, False, branch(), branch() if r.random() < 0.85 else None)
+            if k < 0.8:
+                alts = [(cond(), branch()) for _ in range(r.choice([0, 1, 2]))]
+                return (r.choice(["if", "if", "unless"]), cond(), branch(), alts, branch() if r.random() < 0.7 else None)
+            whens = [([r.choice([("lit", 1), ("lit", 2), ("lit", True), ("path", "n", [])]) for _ in range(r.choice([1, 2]))], branch())
+                     for _ in range(r.choice([1, 2]))]
+            return ("case", r.choice([("lit", 1), ("path", "n", []), ("path", "flag", [])]), whens, branch() if r.random() < 0.7 else None)
+
+        def pad(n: tuple) -> list[tuple]:
+            out = [n]
+            if r.random() < 0.5:
+                out.insert(0, ("content", r.choice([" ", "\n"])))
+            if r.random() < 0.5:
+                out.append(("content", r.choice([" ", "\n  "])))
+            return out
+
+        def wrap(n: tuple) -> tuple:
+            k = r.random()
+            if k < 0.3:
+                return ("if", ("lit", True), pad(n), [], None)
+            if k < 0.4:
+                return ("unless", ("lit", False), pad(n), [], None)
+            if k < 0.55:
+                return ("case", ("lit", 1), [([("lit", 1)], pad(n))], None)
+            if k < 0.7:
+                return ("with", [("w", ("lit", 1))], pad(n))
+            if k < 0.85:
+                return ("for", "j", ("range", ("lit", 1), ("lit", r.choice([1, 2]))), None, None, False, pad(n), None)
+            return ("if", ("lit", False), [("content", " ")], [], pad(n))
+
+        return wrap(inner(1))
+
     def node(self, scope: list[str], depth: int, in_loop: bool) -> tuple:
         r = self.r
         self.budget -= 1
         k = r.random()
         if depth <= 0 or self.budget <= 0:
             k = k * 0.5
-        if k < 0.16:
+        if k < 0.13 or (k < 0.16 and depth <= 0):
             return ("content", r.choice(TEXTS))
+        if k < 0.16:
+            return self.blank_nest(scope, depth, in_loop)
         if k < 0.32:
             return ("output", gen_filtered(r, scope))
         if k < 0.35:
@@ -247,7 +317,7 @@ class Gen:
             grp = r.choice([None, None, "g", "h"])
             return ("cycle", grp, [gen_primitive(r, scope) for _ in range(r.choice([1, 2, 3]))])
         if k < 0.5:
-            return r.choice([("comment",), ("raw", r.choice(["", "raw {{ x }}", " "]))])
+            return r.choice([("comment", r.choice([0, 1, 2])), ("raw", r.choice(["", "raw {{ x }}", " ", " r\n"]))])
         # block tags
         if k < 0.6:
             alts = [(gen_bool(r, scope), self.block(scope, depth - 1, in_loop)) for _ in range(r.choice([0, 0, 1, 2]))]
@@ -391,7 +461,8 @@ def p_expr(e: tuple, top: bool = True) -> str:
         args = ", ".join(p_expr(a) for a in e[3])
         return p_expr(e[1]) + " | " + e[2] + (": " + args if args else "")
     if t == "lfilter":
-        return f"{p_expr(e[1])} | {e[2]}: {e[3]} => {p_expr(e[4])}"
+        ps = e[3] if len(e) < 6 or e[5] is None else f"({e[3]}, {e[5]})"
+        return f"{p_expr(e[1])} | {e[2]}: {ps} => {p_expr(e[4])}"
     if t == "tern":
         s = f"{p_expr(e[2])} if {p_expr(e[1])}"
         if e[3] is not None:
@@ -411,7 +482,81 @@ def iter_key(x: str, it: tuple) -> str:
     return f"{x}-{p_expr(it)}"
 
 
+# Marker slots and text pieces are written as private-use sentinels; `finish`
+# replaces them.  OT/CT: tag delimiters, OO/CO: output delimiters.
+SL, SR, TB, TE = "\ue000", "\ue001", "\ue002", "\ue003"
+OT, CT, OO, CO = "{%" + SL, SR + "%}", "{{" + SL, SR + "}}"
+MARKERS = ["", "", "", "-", "~", "+"]
+
+
+def canon(x: Any) -> Any:
+    """Adjacent content merged and empty content dropped (what the lexer sees)."""
+    if is_block(x):
+        out: list[tuple] = []
+        for n in x:
+            if n[0] == "content":
+                if n[1] == "":
+                    continue
+                if out and out[-1][0] == "content":
+                    out[-1] = ("content", out[-1][1] + n[1])
+                    continue
+                out.append(n)
+            else:
+                out.append(canon(n))
+        return out
+    if isinstance(x, tuple):
+        return tuple(canon(e) for e in x)
+    if isinstance(x, list):
+        return [canon(e) for e in x]
+    if isinstance(x, dict):
+        return {k: canon(v) for k, v in x.items()}
+    return x
+
+
+def finish(s: str, mr: random.Random | None) -> tuple[str, list[tuple[str, str]]]:
+    """Fill the marker slots (all empty when mr is None) and return the source and,
+    for every text piece in document order, the markers that face it:
+    (right marker of the markup before it, left marker of the markup after it);
+    '' where there is no marker or no markup (the default trim mode applies)."""
+    out: list[str] = []
+    pieces: list[tuple[str, str]] = []       # ("C", marker) ("O", marker) ("T", "")
+    i = 0
+    n = len(s)
+    while i < n:
+        ch = s[i]
+        if ch == SL or ch == SR:
+            m = mr.choice(MARKERS) if mr is not None else ""
+            out.append(m)
+            pieces.append(("O" if ch == SL else "C", m))
+            i += 1
+        elif ch == TB:
+            j = s.index(TE, i)
+            out.append(s[i + 1:j])
+            pieces.append(("T", ""))
+            i = j + 1
+        else:
+            out.append(ch)
+            i += 1
+    modes = []
+    for k, (kind, _) in enumerate(pieces):
+        if kind != "T":
+            continue
+        left = pieces[k - 1][1] if k > 0 and pieces[k - 1][0] == "C" else ""
+        right = pieces[k + 1][1] if k + 1 < len(pieces) and pieces[k + 1][0] == "O" else ""
+        modes.append((left, right))
+    return "".join(out), modes
+
+
+def p_source(nodes: list[tuple], r: random.Random | None = None, mr: random.Random | None = None) -> tuple[str, list[tuple[str, str]]]:
+    """Source text of a canonical block with layout from r and markers from mr."""
+    return finish(p_nodes_raw(nodes, r), mr)
+
+
 def p_nodes(nodes: list[tuple], r: random.Random | None = None) -> str:
+    return finish(p_nodes_raw(canon(nodes), r), None)[0]
+
+
+def p_nodes_raw(nodes: list[tuple], r: random.Random | None = None) -> str:
     return "".join(p_node(n, r) for n in nodes)
 
 
@@ -422,78 +567,84 @@ def p_args(args: list[tuple]) -> str:
 def p_node(n: tuple, r: random.Random | None = None) -> str:
     t = n[0]
     s = sp(r)
+    body = lambda b: p_nodes_raw(b, r)  # noqa: E731
     if t == "content":
-        return n[1]
+        return TB + n[1] + TE
     if t == "output":
-        return "{{" + s + p_expr(n[1]) + sp(r) + "}}"
+        return OO + s + p_expr(n[1]) + sp(r) + CO
     if t == "echo":
-        return "{%" + s + "echo " + p_expr(n[1]) + sp(r) + "%}"
+        return OT + s + "echo " + p_expr(n[1]) + sp(r) + CT
     if t == "assign":
-        return "{%" + s + f"assign {n[1]} = " + p_expr(n[2]) + sp(r) + "%}"
+        return OT + s + f"assign {n[1]} = " + p_expr(n[2]) + sp(r) + CT
     if t == "capture":
-        return "{%" + s + f"capture {n[1]}" + sp(r) + "%}" + p_nodes(n[2], r) + "{% endcapture %}"
+        return OT + s + f"capture {n[1]}" + sp(r) + CT + body(n[2]) + OT + " endcapture " + CT
     if t in ("if", "unless"):
-        out = "{%" + s + f"{t} " + p_expr(n[1]) + sp(r) + "%}" + p_nodes(n[2], r)
+        out = OT + s + f"{t} " + p_expr(n[1]) + sp(r) + CT + body(n[2])
         for c, b in n[3]:
-            out += "{% elsif " + p_expr(c) + " %}" + p_nodes(b, r)
+            out += OT + " elsif " + p_expr(c) + " " + CT + body(b)
         if n[4] is not None:
-            out += "{% else %}" + p_nodes(n[4], r)
-        return out + "{%" + sp(r) + f"end{t} %}}"
+            out += OT + " else " + CT + body(n[4])
+        return out + OT + sp(r) + f"end{t} " + CT
     if t == "case":
-        out = "{% case " + p_expr(n[1]) + " %}"
+        out = OT + " case " + p_expr(n[1]) + " " + CT
         for alts, b in n[2]:
-            out += "{% when " + ", ".join(p_expr(a) for a in alts) + " %}" + p_nodes(b, r)
+            out += OT + " when " + ", ".join(p_expr(a) for a in alts) + " " + CT + body(b)
         if n[3] is not None:
-            out += "{% else %}" + p_nodes(n[3], r)
-        return out + "{% endcase %}"
+            out += OT + " else " + CT + body(n[3])
+        return out + OT + " endcase " + CT
     if t == "for":
-        _, x, it, lim, off, rev, body, els = n
-        out = "{%" + s + f"for {x} in {p_expr(it)}"
+        _, x, it, lim, off, rev, fbody, els = n
+        out = OT + s + f"for {x} in {p_expr(it)}"
         if lim is not None:
             out += f" limit: {p_expr(lim)}"
         if off is not None:
             out += " offset: " + ("continue" if off == "continue" else p_expr(off))
         if rev:
             out += " reversed"
-        out += sp(r) + "%}" + p_nodes(body, r)
+        out += sp(r) + CT + body(fbody)
         if els is not None:
-            out += "{% else %}" + p_nodes(els, r)
-        return out + "{% endfor %}"
+            out += OT + " else " + CT + body(els)
+        return out + OT + " endfor " + CT
     if t in ("break", "continue"):
-        return "{% " + t + " %}"
+        return OT + " " + t + " " + CT
     if t in ("increment", "decrement"):
-        return "{%" + s + f"{t} {n[1]} %}}"
+        return OT + s + f"{t} {n[1]} " + CT
     if t == "cycle":
         grp = f"{n[1]}: " if n[1] else ""
-        return "{% cycle " + grp + ", ".join(p_expr(e) for e in n[2]) + " %}"
+        return OT + " cycle " + grp + ", ".join(p_expr(e) for e in n[2]) + " " + CT
     if t == "raw":
-        return "{% raw %}" + n[1] + "{% endraw %}"
+        return OT + " raw " + CT + TB + n[1] + TE + OT + " endraw " + CT
     if t == "comment":
-        return "{% comment %} c {{ x }} {% endcomment %}"
+        style = n[1] if len(n) > 1 else 0
+        if style == 1:
+            return "{#" + SL + " c {{ x }} " + SR + "#}"
+        if style == 2:
+            return OT + " # c x " + CT
+        return OT + " comment %} c {{ x }} {% endcomment " + CT
     if t == "with":
-        return "{% with " + p_args(n[1]) + " %}" + p_nodes(n[2], r) + "{% endwith %}"
+        return OT + " with " + p_args(n[1]) + " " + CT + body(n[2]) + OT + " endwith " + CT
     if t == "render":
-        out = "{% render " + p_str(n[1])
+        out = OT + " render " + p_str(n[1])
         if n[2] is not None:
             loop, ve, alias = n[2]
             out += (" for " if loop else " with ") + p_expr(ve) + (f" as {alias}" if alias else "")
         if n[3]:
             out += ", " + p_args(n[3])
-        return out + " %}"
+        return out + " " + CT
     if t == "include":
-        out = "{% include " + p_expr(n[1])
+        out = OT + " include " + p_expr(n[1])
         if n[2] is not None:
             ve, alias = n[2]
             out += " with " + p_expr(ve) + (f" as {alias}" if alias else "")
         if n[3]:
             out += ", " + p_args(n[3])
-        return out + " %}"
+        return out + " " + CT
     if t == "macro":
         ps = "".join(", " + p + (f" = {p_expr(d)}" if d is not None else "") for p, d in n[2])
-        return "{% macro " + n[1] + ps + " %}" + p_nodes(n[3], r) + "{% endmacro %}"
+        return OT + " macro " + n[1] + ps + " " + CT + body(n[3]) + OT + " endmacro " + CT
     if t == "call":
         parts = [p_expr(a) for a in n[2]] + [f"{k}: {p_expr(v)}" for k, v in n[3]]
-        return "{% call " + n[1] + ("".join(", " + p for p in parts)) + " %}"
+        return OT + " call " + n[1] + ("".join(", " + p for p in parts)) + " " + CT
     raise ValueError(n)
 
 
@@ -553,7 +704,8 @@ def c_expr(e: tuple) -> str:
         return f"(EFilter {c_expr(e[1])} {_FN[e[2]]} {C.clist([c_expr(a) for a in e[3]], 'expr')})"
     if t == "lfilter":
         lf = {"map": "LMap", "where": "LWhere", "reject": "LReject", "find": "LFind", "find_index": "LFindIndex", "has": "LHas"}[e[2]]
-        return f"(EFilterL {c_expr(e[1])} {lf} {C.cstr(e[3])} {c_expr(e[4])})"
+        ip = C.copt(C.cstr(e[5]) if len(e) > 5 and e[5] is not None else None, "str")
+        return f"(EFilterL {c_expr(e[1])} {lf} {C.cstr(e[3])} {ip} {c_expr(e[4])})"
     if t == "tern":
         alt = C.copt(c_expr(e[3]) if e[3] is not None else None, "expr")
         return f"(ETernary {c_expr(e[1])} {c_expr(e[2])} {alt})"
@@ -567,47 +719,58 @@ NODE_TAGS = {"content", "contentm", "output", "echo", "assign", "capture", "if",
 WS = "".join(chr(c) for c in range(0x110000) if chr(c).isspace())
 
 
-def py_trim(text: str, mode: str) -> str:
-    """Environment.trim with both sides in `mode` (harness-side reference)."""
+def _side(text: str, mode: str, left: bool) -> str:
     if mode == "-":
-        return text.strip(WS)
+        return text.lstrip(WS) if left else text.rstrip(WS)
     if mode == "~":
-        return text.strip("\r\n")
+        return text.lstrip("\r\n") if left else text.rstrip("\r\n")
     return text
+
+
+def py_trim(text: str, mode: str, sides: tuple[str, str] = ("", "")) -> str:
+    """Documented whitespace control (harness-side reference): each side of a text
+    is trimmed as the marker facing it says, the default mode where there is none."""
+    return _side(_side(text, sides[0] or mode, True), sides[1] or mode, False)
 
 
 def is_block(x: Any) -> bool:
     return isinstance(x, list) and all(isinstance(n, tuple) and n and isinstance(n[0], str) and n[0] in NODE_TAGS for n in x)
 
 
-def model_ast(x: Any, mode: str) -> Any:
-    """The AST the parser builds: adjacent content merged (one token), each content
-    trimmed with the default trim mode, blank computed on the untrimmed text."""
+def model_ast(x: Any, mode: str, sides: Any = None) -> Any:
+    """The AST the parser builds: canonical program, each content trimmed, blank
+    computed on the untrimmed text.  sides: the marker pairs of the text pieces in
+    document order as `finish` returns them (for a program: {template name: pairs});
+    None = no explicit markers."""
+    if isinstance(x, dict) and "main" in x and "loader" in x:
+        sd = sides or {}
+        return {"main": model_ast(x["main"], mode, sd.get("main")),
+                "loader": {k: model_ast(v, mode, sd.get(k)) for k, v in x["loader"].items()}}
+    it = iter(sides) if sides is not None else None
+    out = _mast(canon(x), mode, it)
+    if it is not None and next(it, None) is not None:
+        raise ValueError("text pieces and content nodes out of step")
+    return out
+
+
+def _mast(x: Any, mode: str, it: Any) -> Any:
     if is_block(x):
-        out: list[tuple] = []
-        for n in x:
-            if n[0] == "content" and out and out[-1][0] == "content":
-                out[-1] = ("content", out[-1][1] + n[1])
-            else:
-                out.append(n)
         res = []
-        for n in out:
+        for n in x:
             if n[0] == "content":
-                if n[1] == "":
-                    continue      # no token at all
-                res.append(("contentm", py_trim(n[1], mode), (not n[1]) or n[1].isspace()))
+                res.append(("contentm", py_trim(n[1], mode, next(it) if it is not None else ("", "")), n[1].isspace()))
             elif n[0] == "raw":
-                # RawTag.parse trims the inner text with the tag's inner markers (default trim here)
-                res.append(("raw", py_trim(n[1], mode)))
+                # RawTag.parse trims the inner text with the tag's inner markers
+                res.append(("raw", py_trim(n[1], mode, next(it) if it is not None else ("", ""))))
             else:
-                res.append(model_ast(n, mode))
+                res.append(_mast(n, mode, it))
         return res
     if isinstance(x, tuple):
-        return tuple(model_ast(e, mode) for e in x)
+        return tuple(_mast(e, mode, it) for e in x)
     if isinstance(x, list):
-        return [model_ast(e, mode) for e in x]
+        return [_mast(e, mode, it) for e in x]
     if isinstance(x, dict):
-        return {k: model_ast(v, mode) for k, v in x.items()}
+        return {k: _mast(v, mode, it) for k, v in x.items()}
     return x
 
 
